@@ -270,6 +270,12 @@ func (c *FCtx) checkPost(e *Env, st *State, tag string, pos token.Pos) {
 				extra[rv.Name()] = TV{st.vars[rv], rv.Type()}
 			}
 		}
+		if len(ct.Uses) > 0 {
+			se := c.specEnvFor(e, st, c.entry, extra)
+			for _, u := range ct.Uses {
+				c.applyUse(se, u, st)
+			}
+		}
 		for i, en := range ct.Ensures {
 			label := en.Label
 			if label == "" {
@@ -421,7 +427,11 @@ func (c *FCtx) applyUse(se *SpecEnv, u *Clause, st *State) {
 	}
 	// otherwise: a fact to be proved first and then used (a local lemma)
 	g := se.evalBool(ex)
-	c.oblige(st, "assert", fmt.Sprintf("use(%d)", u.Line), token.NoPos, g, u.Text)
+	name := u.Label
+	if name == "" {
+		name = fmt.Sprintf("line %d", u.Line)
+	}
+	c.oblige(st, "assert", fmt.Sprintf("use(%s)", name), token.NoPos, g, u.Text)
 	st.assume(g)
 }
 
